@@ -53,6 +53,9 @@ def ty_of(t):
     return _TY.get(t)
 
 
+# results of checked arithmetic (x.0 of *WithOverflow): only read after the overflow assert passed
+CHECKED = set()
+
 CMP = ("Eq", "Ne", "Lt", "Le", "Gt", "Ge")
 OVF = {"AddWithOverflow": "Add", "SubWithOverflow": "Sub", "MulWithOverflow": "Mul",
        "AddUnchecked": "Add", "SubUnchecked": "Sub", "MulUnchecked": "Mul",
@@ -555,8 +558,10 @@ class FA:
                     reaching.append((ev, Q))
                 elif qroot is not root and qroot.op == "mem":
                     # a different &mut: by Rust's aliasing rules it cannot overlap *root unless derived
-                    # from it; derived pointers come from calls/havoc -> be conservative there
-                    if qroot.args[0].op not in ("arg", "ref"):
+                    # from it.  Pointers that are function arguments, or that were LOADED from memory (a `&mut`
+                    # stored in a field points to another allocation than the object holding it), are not derived
+                    # from root; pointers returned by calls may be (index_mut, iter_mut().next(), ...): conservative.
+                    if qroot.args[0].op not in ("arg", "ref", "memval"):
                         reaching.append((ev, Q))
         if not reaching:
             return set_ty(mk("memval", P), ty)
@@ -585,6 +590,7 @@ class FA:
             op = rv["op"]
             if op.endswith("WithOverflow"):
                 inner = set_ty(mk("bin", OVF[op], a, b), ty_of(a))
+                CHECKED.add(inner)
                 return mk("tupov", inner)
             op = OVF.get(op, op)
             t = mk("bin", op, a, b)
@@ -641,6 +647,11 @@ class FA:
                 a0 = args[0]
                 return set_ty(mk("len", self.pointee(a0)), U)
             return set_ty(mk("call", callee, args), dty)
+        if callee in PURE_OBS:
+            # pure observer of its receiver: identity = (callee, current VALUE of the receiver object), no site,
+            # so two calls on an unmodified object are the same term and a mutation in between makes them differ
+            vals = tuple(self.read_obj(a.args[0], point) if a.op == "ref" else a for a in args)
+            return set_ty(mk("call", callee, vals), dty)
         return set_ty(mk("call", callee, args, id(self.fn), b), dty)
 
     def call_args(self, b):
@@ -731,6 +742,17 @@ def _overlap(P, Q):
 PURE = {
     "core::slice::<impl [T]>::len": "len",
     "core::str::<impl str>::len": "len",
+}
+
+
+# Observers: result depends only on the value of the receiver (crate fns: checked to be store-free single-expression
+# bodies by rule U-obs; tinyvec/core ones by their documented contract).
+PURE_OBS = {
+    "tinyvec::ArrayVec::<A>::len", "tinyvec::ArrayVec::<A>::capacity",
+    "util::data_vec::DataVec::<T, N>::len", "util::data_vec::DataVec::<T, N>::capacity",
+    "util::Df88591String::<N>::len", "util::grid16p::Grid16P::<T>::len",
+    "core::option::Option::<T>::is_none", "core::option::Option::<T>::is_some",
+    "core::result::Result::<T, E>::is_err", "core::result::Result::<T, E>::is_ok",
 }
 
 
